@@ -16,7 +16,7 @@ pub struct GenRule {
     pub special: Option<Vec<&'static str>>,
 }
 
-pub const IN_ITEMS: [&str; 18] = ["a", "t", "C", "V", "[+cons]", "[]", "[αvoice]", "V:[+long]", "a:[-long]", "{p,a}", "%", "%:[+stress]", "$", "⟨CV⟩", "⟨C...⟩", "C=1", "%=1", "⟨..V⟩=1"];
+pub const IN_ITEMS: [&str; 19] = ["a", "t", "C", "V", "[+cons]", "[]", "[αvoice]", "V:[+long]", "a:[-long]", "{p,a}", "{%,C}", "%", "%:[+stress]", "$", "⟨CV⟩", "⟨C...⟩", "C=1", "%=1", "⟨..V⟩=1"];
 pub const IN_LATE: [&str; 2] = ["...", "1"]; // only after a first item
 pub const OUT_ITEMS: [&str; 17] = ["i", "t", "[+voice]", "[-hi]", "[αvoice]", "[+long]", "[-long]", "[+stress]", "[tone:5]", "1", "{t,i}", "$", "%", "⟨ta⟩", "i:[+long]", "[-place]", "[+sec.stress, tone:51]"];
 pub const OUT_SOLO: [&str; 2] = ["*", "&"];
